@@ -78,6 +78,23 @@ def job_compose(job):
                                             'elementary': str(todict(e[1]) if e[0] == 'value' else e[1])[:300], 'reference': str(r)[:300]})
                 elif len(out['samples']) < 3 and rng.random() < 0.01:
                     out['samples'].append({'config': cfg, 'op': name, 'a_keys': list(ak), 'b_keys': list(bk)})
+            # the same operand objects after a coefficient was changed in place (multivectors are mutable and share their storage
+            # with the caller): the composite operators must see the object as it is now
+            if len(ak) >= 1 and out['evaluations'] % 7 == 0:
+                try:
+                    a.values()[0] = a.values()[0] * 2 + 1
+                    changed = True
+                except Exception:
+                    changed = False
+                if changed:
+                    for name, (composite, elementary) in {'sw': (lambda: a >> b, lambda: (a * b) * ~a), 'normsq': (lambda: a.normsq(), lambda: a * ~a),
+                                                          'proj': (lambda: a @ b, lambda: (a | b) * ~b)}.items():
+                        out['evaluations'] += 1
+                        g, e = _safe(composite), _safe(elementary)
+                        if e[0] == 'value' and not (g[0] == 'value' and O.eq(fr.mv_to_ref(g[1]), fr.mv_to_ref(e[1]))) and len(out['failures']) < 15:
+                            out['failures'].append({'config': cfg, 'op': name, 'what': 'composite operator on an operand whose coefficient was updated in place differs from the composition',
+                                                    'a': showmv(ak, a.values()), 'b': showmv(bk, b.values()),
+                                                    'got': str(todict(g[1]) if g[0] == 'value' else g[1])[:300], 'elementary': str(todict(e[1]))[:300]})
     out['distinct'] = len(pats)
     return out
 
@@ -447,6 +464,10 @@ def job_options(job):
             for name in (base.get('ops') or job['ops']):
                 binary = name in BINARY + ['div']
                 ak_, av_ = ak, av
+                if name in ('outertan', 'outersin', 'outercos') or (name == 'outerexp' and base.get('study_outer')):
+                    # scalar + bivector (the series does not terminate early: coefficients 1/k! of every order reach the code generator)
+                    K = rng.choice([k for k in range(1, 2 ** ref_alg.d) if bin(k).count('1') == 2] or [1])
+                    ak_, av_ = (0, K), [2.0, float(rng.choice([1, -1, 3]))]
                 if name in ('sqrt',):
                     # Study numbers: positive scalar part + one blade (floats: the square root is irrational)
                     K = rng.randrange(1, 2 ** ref_alg.d)
